@@ -11,8 +11,18 @@ model lean/PyYetiVerif/Model/RigidBody.lean + Model/RigidBodyGuyan.lean, run at 
     _cbcoordchk), or a spring to ground on all six / on ONE degree of freedom) - every returned array and every numeric
     table of the printed report (coordinates, movement checks, three 6x6 masses, cg, radii of gyration, inertia, K*RB
     tables and their sums, effective-mass table with totals, matrix value checks, trimmed DOF lists),
-  * cb._solve_eig directly (null columns, massless DOF, back expansion), cb.rbdispchk, cb.mk_net_drms (net force recovery
-    matrices in both unit systems), cb.rbmultchk, cb.cbtf at exactly 0 Hz.
+  * cb._solve_eig directly (null columns, massless DOF, back expansion), cb.rbdispchk, cb.rbmultchk, cb.cbtf at exactly 0 Hz,
+  * second extension: cb.mk_net_drms AS A WHOLE (Model/RigidBodyNet.lean: every returned matrix incl. ifatm through the
+    model's own RBE3 least-squares kernel, cgatm, the 14 cg load-factor rows, weight / height / axial directions, the three
+    label lists, the grounding warning; options conv / bsubset / ref / sccoord 3x3 and CORD2R / reorder / g / tau /
+    rbe3_indep_dof), cgmass(all6=True)'s principal axes (Model/RigidBodyPrinc.lean, Jacobi in the driver),
+    cb.rbmultchk on exact rational data through C18's model of find_xyz_triples (Model/RigidBodyMult.lean: scale of the
+    modes, coordinates, unit scales, flagged rows, NULL rows, errors), the dispatch of cb.cbcheck
+    (Model/RigidBodyCheck.lean: input errors, order of conversion and reordering, bref inside the b-set, rb_norm=None,
+    em_filt print filter, reorder=False with the b-set anywhere), cb.cbcoordchk called directly (rb_normalizer, 3-2-1
+    reference sets, unsorted b-set, no modal DOF),
+  * translator harness/translate/c06_cbconsts.py: the tolerances / defaults / unit factors of cb.py (+ two of n2p.py) ->
+    Generated/RigidBodyConsts.lean, used by the models and by the theorem conv_factors_inverse.
 The model-free oracle compares the same API results with the generator's ground truth (incl. the printed tables, free-free
 frequencies against the QZ spectrum of the full pencil, mk_net_drms against resultants / rigid mass / cg motion), requires
 grounded / geometry-perturbed variants to be flagged, checks the cbtf equations of motion and the inverse / invariance laws
@@ -57,13 +67,19 @@ TRUSTED = [
     "run; the Float driver uses its own Gaussian elimination, and the adjugate inverse for the 3x3 systems of _rbdispchk",
     "eigen-solver specification: scipy.sparse.linalg.eigsh(k, p, m, sigma=1) returns eigenpairs of the REDUCED pencil, the "
     "first six spanning null(K) of a free model (rbe is compared with the model's stiffness-based modes; the back-expanded "
-    "vectors are checked against the FULL pencil and its QZ spectrum by the oracle); scipy.linalg.eigh inside cgmass(all6) "
-    "(principal inertias / radii are compared with numpy eigvalsh of the ground truth only)",
+    "vectors are checked against the FULL pencil and its QZ spectrum by the oracle)",
     "ode.SolveUnc.fsolve specification (property C02): cbtf's q-set solve is checked by the oracle's EOM residual; at 0 Hz "
     "the specification is Kqq dq = -Mqb a (the harness solves the model's right-hand side)",
-    "n2p.addgrid / make_uset produce the uset rows (inputs of the model; their geometry is property C14); n2p.formrbe3 and "
-    "n2p.find_xyz_triples (used by mk_net_drms.ifatm and rbmultchk's printed coordinates) are property C14 and enter the "
-    "oracle only",
+    "n2p.addgrid / make_uset produce the uset rows (inputs of the model; their geometry is property C14); n2p.formrbe3 is "
+    "modelled for the configuration mk_net_drms uses (dependent basic grid at `ref`, unit weights, rotations scaled by Lc^2) "
+    "through its normal equations, solved in the Float driver by Gaussian elimination (residual measured every run; C14 proves "
+    "the general routine); n2p.find_xyz_triples is C18's exact-rational model (read-only), its floating-point decisions within "
+    "1e-9 of a threshold are reported `borderline` and skipped",
+    "linalg.solve(Mcg, .) of mk_net_drms and linalg.eigh of cgmass(all6) enter through stated specifications (Mcg X = B; "
+    "V orthonormal, V'IV = diag(w), w ascending) - the driver's own Gaussian elimination / cyclic Jacobi iteration with the "
+    "residuals measured every run (<= 1e-9 / 1e-12)",
+    "translator harness/translate/c06_cbconsts.py (Python ast, no execution of repo code) and the committed snapshot "
+    "Generated/RigidBodyConsts.lean; numpy's allclose defaults rtol = 1e-5, atol = 1e-8 are numpy's, not the source's",
     "ytools.mattype symmetry test inside cgmass is not modelled (inputs are symmetric; an asymmetric probe must raise)",
 ]
 RULE = (
@@ -77,9 +93,16 @@ RULE = (
     "DOF / grounded through one DOF / misplaced boundary grid; 40% with one special boundary grid: massless6, massless-rot, "
     "pinned, and the pinned grid as reference = RuntimeError), _solve_eig (symmetric pencils with 0-3 null columns and 0-4 "
     "massless DOF, also -0.0 entries), rbdispchk (1-5 nodes in identity / rotated / general bases, exact rows and small or "
-    "large deviations around the warning threshold, three tolerances), mk_net_drms (generated structures, b-set in any "
-    "order, conv, bsubset, ref by id/vector/origin, sccoord rotation), rbmultchk (bset first/last/vector/full rb), cbtf at "
-    "0 Hz (b-set first/last/interleaved/permuted, full damping). A case is one call "
+    "large deviations around the warning threshold, three tolerances), mk_net_drms as a whole (generated structures, b-set in "
+    "any order, conv None/m2e/e2m/tuple, bsubset, ref by id/vector/origin, sccoord as 3x3 rotation or CORD2R card, reorder "
+    "on/off incl. bsubset under reorder, g default/other, tau g / natural units / mixed, rbe3_indep_dof None/123456, one to "
+    "four interface grids, axial direction x/y/z, l/v rows replaced or not), cgmass principal axes (same cases as cgmass), "
+    "rbmultchk (bset first/last/vector/full rb; exact stream: nodes in any local system / scale / order recovered from one of "
+    "1-2 boundary grids, mixed with rotation rows, NULL rows, modal-only rows and non-rigid triples, b-set columns "
+    "first/last/vector, errors bset string / zero scale), cbcheck input errors (uset size, non-ascending bseto) and em_filt "
+    "0 / positive, reorder=False with the b-set first/last/interleaved, cbcoordchk directly (reference = one grid or a 3-2-1 "
+    "translation set over three grids with rb_normalizer, b-set in any grid order, with / without modal DOF), cbtf at "
+    "0 Hz (b-set first/last/interleaved/permuted, full damping, no modal DOF). A case is one call "
     "compared on all returned quantities; non-trivial = not the identity configuration (a non-zero offset / "
     "non-basic system / non-sorted bseto / conversion / at least one mode / a trimmed DOF); distinct by the generated input"
 )
@@ -91,19 +114,34 @@ ASSUMPTIONS = [
     "translation block of rbdispchk singular (scipy raises LinAlgError) - outside the generated domain, the model replies "
     "raise-singular",
     "uset tables list their grids by ascending id; mk_net_drms(reorder=False) takes the uset in the order of the bset vector, "
-    "cbcheck in ascending matrix position; an RBE3 on the translations of exactly two boundary grids is rank deficient, so "
-    "rbe3_indep_dof=123456 is passed there",
+    "cbcheck and mk_net_drms(reorder=True) in ascending matrix position (bsubset then counts uset rows); an RBE3 on the "
+    "translations of exactly two boundary grids is rank deficient, so rbe3_indep_dof=123456 is passed there; `sccoord` is a "
+    "rotation (3x3) or a rectangular CORD2R card - a cylindrical / spherical s/c system is outside the model",
+    "mk_net_drms decisions (axial direction, replacement of the l/v rows, grounding warning) are compared exactly unless the "
+    "two candidates are within round-off of each other (skipped and counted)",
+    "rbmultchk exact stream: inputs are multiples of 1/400 (rotations from 3-4-5 triples and signed permutations, scales "
+    "1/2, 1, 2, 4); a non-rigid triple followed directly by a node can be paired with that node's rows by find_xyz_triples "
+    "(documented 'can be tricked'): the correspondence follows the model there, the oracle puts a NULL row behind it",
     "a printed comparison next to a threshold (refpoint_chk, rbdispchk warning) within 1e-6..1e-3 relative is skipped and counted",
 ]
 PARTIAL = (
-    "partial: eigsh/eigh/solve/fsolve are external kernels entering through stated specifications (residuals measured at run "
-    "time): guyan_preserves_eigenpairs / null_trim_sound take eigenpairs of the reduced pencil as given, rbe and the free-free "
-    "frequencies are compared numerically (model's stiffness-based modes, QZ spectrum); principal inertias / principal radii of "
-    "gyration (eigh in cgmass) and mk_net_drms' ifatm (formrbe3), cgatm (a linear solve), cglf rows and labels, rbmultchk's "
-    "coordinate detection (find_xyz_triples) are not modelled - oracle only; the printed report is by nature comparable at print "
-    "precision only; rbdispchk's 3x3 solve is modelled by the adjugate inverse (numeric tie); "
-    "net_force_is_resultant_local covers rectangular output systems (cylindrical / spherical ones through the numeric stream); "
-    "cbcheck(reorder=False) with the b-set not leading is the open finding F33"
+    "partial: eigsh/eigh/solve/fsolve/formrbe3's normal-equation solve are external kernels entering through stated "
+    "specifications (residuals measured at run time): guyan_preserves_eigenpairs / null_trim_sound take eigenpairs of the reduced "
+    "pencil as given, rbe and the free-free frequencies are compared numerically (model's stiffness-based modes, QZ spectrum); "
+    "principal_inertias_invariant / principal_gyr_eq are relative to the eigh specification (V orthonormal, V'IV = diag w, w "
+    "ascending), rotated_mass_blocks is stated on Mathlib block matrices (not through the NMat code of cgmass); "
+    "net_ifatm_is_rb_acceleration_of_interface takes the RBE3 reproduction property X RB = 1 from rbe3_normal_reproduces "
+    "(invertible normal matrix); net_ifltm_is_interface_resultant / net_ifltm_units / the cgatm theorems cover rectangular "
+    "output systems of the interface grids (cylindrical / spherical ones through the numeric stream) and a 3x3 / CORD2R "
+    "sccoord; the labels of mk_net_drms are tied exactly but not the subject of a theorem (String.replace does not reduce in "
+    "the kernel); rbmultchk_flags_nonrigid states the tolerance rule for a matrix that consists of the one candidate triple "
+    "(general mixtures through the exact stream), find_xyz_triples_segs needs the non-node rows to have NO translation part "
+    "(a lone translation row can be paired with its neighbours - the routine's documented limitation); cbcheck_returns_def / "
+    "cbcheck_option_independence cover the fields that need no dense kernel (rbs, rbe and the report are assembled by the "
+    "driver from the proved pieces and tied numerically); the printed reports are by nature comparable at print precision "
+    "only; rbdispchk's 3x3 solve is modelled by the adjugate inverse (numeric tie). Open findings: F46 (cgatm rotation rows, "
+    "formal side cgatm_rotation_rows_reference_counterexample) and the new cbcheck em_filt IndexError "
+    "(cbcheck_emfilt_empty_raises models the code as it is)"
 )
 MANIFEST = {
     "level_text": "Proof (Lean 4, standard axioms) about a polymorphic executable model of the rigid-body and "
@@ -132,19 +170,47 @@ MANIFEST = {
     "reference grid in the reference grid's local axes (coordchk_coords_local); mk_net_drms' rb.T @ F is the resultant force and moment at the "
     "reference point, also applied through Mcb[b] to any response vector and for local rectangular output systems "
     "(net_force_is_resultant, net_drm_is_resultant, net_force_is_resultant_local); rbmultchk's product (rbmult_eq_mul). "
-    "Tied to the source by numeric correspondence on generated free structures and direct API streams.",
+    "Second extension: mk_net_drms is modelled as a whole (mkNetDrms; mk_net_drms_fields states every output in terms of the "
+    "pieces): ifltma @ a + ifltmd @ d is the resultant interface force about `ref` for grids in rectangular output systems "
+    "(net_ifltm_is_interface_resultant), the l/v-unit matrix is the converted s/c one times the force / moment factor "
+    "(net_ifltm_units), an RBE3 that solves formrbe3's normal equations reproduces rigid-body motion and ifatm applied to a "
+    "rigid interface acceleration returns it, in g after the division (rbe3_normal_reproduces, "
+    "net_ifatm_is_rb_acceleration_of_interface), cgatm rows 0-2 times the mass are the net force whatever point rbcg is formed "
+    "about (cgatm_translation_rows_are_cg_acceleration), rows 3-5 times the inertia are the moment about the point whose BASIC "
+    "coordinates are cg_sc - the offset from `ref`, not the cg (cgatm_rotation_rows_are_moment_about_offset), with the "
+    "concrete counterexample for ref != origin (cgatm_rotation_rows_reference_counterexample, the formal side of F46); the cglf "
+    "rows are cgatm rows and +-moment/(weight*height) (cglf_is_weight_normalised) and for a cg on the axial axis the "
+    "moment-based rows equal the lateral force over the weight in all six axis / direction cases "
+    "(cglf_moment_rows_match_shear); Tsc2lv blocks (tsc2lv_blocks). cgmass(all6): the principal inertias are determined by "
+    "the eigh specification, equal for I and R'IR and are those of the cg inertia for every reference point "
+    "(principal_inertias_invariant, principal_inertias_ref_indep, rotated_mass_blocks, eigh_spec_charpoly, eighResid_spec), "
+    "principal radii sqrt(w/m) (principal_gyr_eq). rbmultchk: for a response matrix made of node triples in any order among "
+    "rows without translation part find_xyz_triples marks exactly the node rows with location and scale "
+    "(find_xyz_triples_segs, on C18's model), the scale of six-row-per-grid rigid-body modes is their unit scale "
+    "(rbScale2_grids), together (rbmultchk_scale_and_coords), and a candidate whose rotation block violates the two allclose "
+    "tests stays blank (rbmultchk_flags_nonrigid). cbcheck as decision logic (cbcheckM): when it raises (cbcheck_errors, "
+    "cbPrepare_cases, cbFinish_cases, cbcheck_emfilt_empty_raises), what it returns (cbcheck_returns_def), which options "
+    "cannot change which fields (cbcheck_option_independence, cbPrepare_option_independence, cbcheck_emfilt_independence, "
+    "cbFinish_ok), converting then reordering = reordering then converting with the new b-set (convert_reorder_commute, "
+    "role_after_reorder), cb_frq unchanged by conv and by the b-set order (convert_qq_diag_invariant, "
+    "cbcheck_frq_conv_invariant, flippv_order_indep), nq = 0 (cbcheck_no_modal_dof); data recovery matrices: response unchanged "
+    "by cbreorder(drm=True) and cbconvert(drm=True), round trip (reorder_drm_response, convert_drm_response, "
+    "convert_drm_roundtrip); the string unit factors are mutually inverse (conv_factors_inverse, on the translated constants). "
+    "Tied to the source by numeric / exact correspondence on generated free structures and direct API streams and by the "
+    "constants translator.",
     "level_note": "Trusted: Lean kernel; propext, Classical.choice, Quot.sound; the Python harness and its structure "
     "generator; specifications of solve/eigsh/eigh/fsolve (measured each run). Floating-point round-off is outside the "
     "theorems (measured by the 1e-9 correspondence). Only tied / measured, not proved: eigsh's eigenpairs of the reduced pencil "
     "(checked against the full pencil and its QZ spectrum), rbe, free-free frequencies, principal inertias, the printed report "
-    "(every numeric table parsed and compared with the model and with ground truth at print precision), mk_net_drms ifatm / "
-    "cgatm / weight / height (oracle against rigid-body ground truth), rbmultchk's printed coordinates. Open findings reported "
-    "by the oracle: F33 (cbcheck reorder=False, b-set not leading) and four new families (mk_net_drms reorder with a "
-    "non-involution order, mk_net_drms cgatm rotational rows for ref != origin, mk_net_drms ifatm for a single grid not in "
-    "columns 0..5, cbcheck without modal DOF).",
+    "(every numeric table parsed and compared with the model and with ground truth at print precision), the label lists of "
+    "mk_net_drms (exact tie), the kernels behind ifatm / cgatm / principal axes (the driver's own solvers, residuals measured), "
+    "rbmultchk's report on matrices outside the proved family (exact stream through C18's model of find_xyz_triples), "
+    "cylindrical / spherical interface grids in mk_net_drms. Open findings reported by the oracle: F46 (mk_net_drms cgatm "
+    "rotational rows for ref != origin) and, new, cbcheck(em_filt > 0) raising IndexError when no mode is above the filter.",
     "technique": "Lean 4 proof (ring/field identities on explicit 6x6 entries, Mathlib block-matrix algebra, "
-    "permutation matrices, Schur complements, reuse of C14's 3x3 frame lemmas) + numeric differential correspondence with "
-    "pyyeti.cb / n2p on generated structures, incl. full parsing of cbcheck's report",
+    "permutation matrices, Schur complements, characteristic polynomials, reuse of C14's 3x3 frame lemmas and of C18's "
+    "find_xyz_triples model) + numeric / exact-rational differential correspondence with pyyeti.cb / n2p on generated "
+    "structures, incl. full parsing of the cbcheck and rbmultchk reports, + Python-ast translator for the constants of cb.py",
 }
 
 
@@ -1831,6 +1897,126 @@ def oracle_rbchk(c):
     return out
 
 
+# --- cb.cbcoordchk called directly ---------------------------------------------------------------------------------
+
+def coordchk_cases(rng, n):
+    """generated free structures handed to cb.cbcoordchk itself: b-set in any grid order, with / without modal DOF, the
+    reference DOF = the six DOF of one grid, or a 3-2-1 set of translations spread over three grids with `rb_normalizer`"""
+    cases = []
+    tries = 0
+    while len(cases) < n and tries < 6 * n:
+        tries += 1
+        spec = gen_spec(rng)
+        spec.update(variant="valid", reorder=True, rbnorm=None, uref="origin", conv=None, em_filt=0,
+                    kinds=[[0], [0, 1]][int(rng.integers(0, 2))])
+        if rng.random() < 0.3:
+            spec["nq"] = 0
+        spec["gridperm"] = [int(x) for x in rng.permutation(spec["nbg"])]
+        mode = "grid"
+        if spec["nbg"] >= 3 and rng.random() < 0.5:
+            mode = "3-2-1"
+        cases.append(dict(spec=spec, mode=mode, seed=[int(x) for x in rng.integers(0, 2 ** 31, 2)]))
+    return cases
+
+
+def build_coordchk(c):
+    from pyyeti.nastran import n2p
+
+    spec = c["spec"]
+    case = build_case(spec)
+    rng = np.random.default_rng(c["seed"])
+    perm = spec["gridperm"]
+    bset = case["bseto"]  # grids in `perm` order
+    nb = case["nb"]
+    pos = case["pos_b"]
+    normz = None
+    if c["mode"] == "grid":
+        g = int(rng.integers(0, spec["nbg"]))
+        ref = pos[6 * g:6 * g + 6].copy()
+        refgrids = [g]
+    else:
+        ga, gb, gc = [int(x) for x in rng.choice(spec["nbg"], 3, replace=False)]
+        ref = np.array([pos[6 * ga], pos[6 * ga + 1], pos[6 * ga + 2], pos[6 * gb + int(rng.integers(0, 3))], pos[6 * gb + int(rng.integers(0, 3))],
+                        pos[6 * gc + int(rng.integers(0, 3))]])
+        if len(set(ref.tolist())) < 6:
+            ref[4] = pos[6 * gb + ((int(ref[3] - pos[6 * gb]) + 1) % 3)]
+        refgrids = [ga, gb, gc]
+        # rb_normalizer: motion of the reference DOF for unit motion about the basic origin (docstring of cbcoordchk)
+        ids = [10 * (i + 1) for i in range(spec["nbg"])]
+        uset_b = make_uset(case["st"], [case["bgrids"][g] for g in perm], ids)  # in b-set order
+        rbg = n2p.rbgeom_uset(uset_b, [0.0, 0.0, 0.0])
+        where = {int(x): k for k, x in enumerate(bset)}
+        normz = rbg[[where[int(r)] for r in ref]]
+    return dict(case=case, bset=bset, ref=ref, normz=normz, refgrids=refgrids)
+
+
+def run_coordchk(b):
+    from pyyeti import cb
+
+    f = io.StringIO()
+    with warnings.catch_warnings():
+        warnings.simplefilter("ignore")
+        return cb.cbcoordchk(b["case"]["Kin"].copy(), np.array(b["bset"]), np.array(b["ref"]), verbose=False, outfile=f,
+                             rb_normalizer=b["normz"])
+
+
+def coordchk_request(b):
+    case = b["case"]
+    parts = ["coordchk", str(case["n"]), str(case["nb"]), ints(b["bset"]), ints(b["ref"]),
+             ("1 " + bits(b["normz"])) if b["normz"] is not None else "0", bits(case["Kin"])]
+    return " ".join(parts)
+
+
+def oracle_coordchk(c):
+    """cb.cbcoordchk on a free structure: the returned modes are rigid-body motion (K @ rbmodes = 0 with the rows where
+    the matrix has them), identity (or the normalizer) on the reference DOF, coordinates = grid locations, check 'pass'"""
+    out = []
+    inp = {"kind": "coordchk", "spec": c["spec"], "mode": c["mode"], "seed": c["seed"]}
+    b = build_coordchk(c)
+    case = b["case"]
+    st = case["st"]
+    if b["normz"] is not None and np.linalg.cond(b["normz"]) > 1e6:
+        return out
+    fam = "cbcoordchk-" + c["mode"] + ("-no-modal-dof" if case["nq"] == 0 else "")
+    try:
+        r = run_coordchk(b)
+    except Exception as e:  # noqa: BLE001
+        _fail(out, fam + "-raises-" + type(e).__name__, "cbcoordchk raises on a free structure", inp, repr(e)[:200], "a result")
+        return out
+    n, nb = case["n"], case["nb"]
+    K = case["Kin"]
+    bset = np.asarray(b["bset"])
+    kmax = max(np.abs(K).max(), 1e-300)
+    sc = max(1.0, np.abs(r.rbmodes).max())
+    if r.rbmodes.shape[0] != n:
+        _fail(out, fam + "-rbmodes-rows", "rbmodes must have one row per DOF of K", inp, list(r.rbmodes.shape), [n, 6])
+        return out
+    unsorted_noq = case["nq"] == 0 and not np.array_equal(bset, np.sort(bset))
+    res = np.abs(K @ r.rbmodes).max() / (kmax * sc)
+    if not res <= 1e-7:
+        f2 = "cbcoordchk-no-modal-dof-unsorted-bset-modes-in-bset-order" if unsorted_noq else fam + "-not-rigid"
+        _fail(out, f2, "K @ rbmodes is not zero: the returned stiffness-based modes are not rigid-body motion of the model "
+              "(rows must follow the DOF order of K)", inp, float(res), "<= 1e-7 relative")
+        return out
+    want_ref = np.eye(6) if b["normz"] is None else b["normz"]
+    if not _close(r.rbmodes[np.asarray(b["ref"])], want_ref, 1e-8, max(1.0, np.abs(want_ref).max()))[0]:
+        _fail(out, fam + "-normalisation", "rbmodes on the reference DOF is not the identity / the normalizer", inp,
+              r.rbmodes[np.asarray(b["ref"])].tolist(), want_ref.tolist())
+    if r.refpoint_chk != "pass" and nb > 6:
+        _fail(out, fam + "-refchk", "refpoint_chk fails on a free model with a statically determinate reference set", inp, r.refpoint_chk, "pass")
+    perm = c["spec"]["gridperm"]
+    xyz = st["xyz"][[case["bgrids"][g] for g in perm]]
+    if c["mode"] == "grid":
+        g0 = case["bgrids"][b["refgrids"][0]]
+        want = (xyz - st["xyz"][g0]) @ st["frames"][g0]
+    else:
+        want = xyz
+    if not _close(r.coords, want, 1e-7, max(1.0, np.abs(want).max()))[0] or not r.maxerr <= 1e-7 * max(1.0, np.abs(want).max()):
+        _fail(out, fam + "-coords", "coordinates derived from the stiffness are not the grid locations (relative to the reference grid in "
+              "its axes, or to the basic origin with rb_normalizer)", inp, np.asarray(r.coords).tolist(), want.tolist())
+    return out
+
+
 def cbtf0_cases(rng, n):
     cases = []
     for i in range(n):
@@ -2328,6 +2514,24 @@ def correspondence(ctx):
             z = dict(c, rb_i=[[0] + r[1:] for r in c["rb_i"]])
             rc_err.append((z, "scale"))
             req.append(rbchk_request(z))
+    # --- N: cb.cbcoordchk directly --------------------------------------------------------------------------
+    rng = ctx.np_rng(15)
+    cc_cases = []
+    for c in coordchk_cases(rng, ctx.pick(40, 300)):
+        b = build_coordchk(c)
+        if b["case"]["red"]["cond"] > 1e8 or (b["normz"] is not None and np.linalg.cond(b["normz"]) > 1e5):
+            ctx.skip("cbcoordchk: structure / reference set outside conditioning domain")
+            continue
+        nbq = b["case"]["nb"]
+        kbb = b["case"]["red"]["Kcb"][:nbq, :nbq]
+        where = {int(x): kk for kk, x in enumerate(b["case"]["pos_b"])}
+        oo = np.setdiff1d(np.arange(nbq), [where[int(r)] for r in b["ref"]])
+        if len(oo) and np.linalg.cond(kbb[np.ix_(oo, oo)]) > 1e6:
+            ctx.skip("cbcoordchk: koo ill-conditioned (> 1e6)")
+            continue
+        c["b"] = b
+        cc_cases.append(c)
+        req.append(coordchk_request(b))
     # --- K: cbtf at 0 Hz ----------------------------------------------------------------------------------
     rng = ctx.np_rng(11)
     c0_cases = cbtf0_cases(rng, ctx.pick(60, 600))
@@ -2686,6 +2890,41 @@ def correspondence(ctx):
         if mo.get("err") != kind or got != kind:
             ctx.disagree("rbmultchk-errors", inp, got, mo)
         ctx.case(("rbchk-error", kind, json.dumps(inp)[:200]), branch="rbchk:err-" + kind)
+    # N
+    for c in cc_cases:
+        b = c["b"]
+        case = b["case"]
+        n, nb = case["n"], case["nb"]
+        t = rep[k].split(" ")
+        k += 1
+        inp = {"spec": c["spec"], "mode": c["mode"], "seed": c["seed"]}
+        ctx.case(("coordchk", json.dumps(inp, sort_keys=True)), branch="coordchk:" + c["mode"])
+        if case["nq"] == 0:
+            ctx.count("coordchk:no-modal-dof")
+        if not np.array_equal(b["bset"], np.sort(b["bset"])):
+            ctx.count("coordchk:bset-unsorted")
+        try:
+            r = run_coordchk(b)
+        except Exception as e:  # noqa: BLE001
+            ctx.disagree("cbcoordchk", inp, "exception %s: %s" % (type(e).__name__, str(e)[:200]), t[0])
+            continue
+        if t[0].startswith("raise"):
+            ctx.disagree("cbcoordchk", inp, "a result", t[0])
+            continue
+        nrows = int(t[1])
+        ng = nb // 6
+        v = unbits(t[2:2 + 6 * nrows + 3 * ng + ng])
+        rbm = v[:6 * nrows].reshape(nrows, 6)
+        co = v[6 * nrows:6 * nrows + 3 * ng].reshape(ng, 3)
+        er = v[6 * nrows + 3 * ng:]
+        sc = max(1.0, np.abs(rbm).max())
+        cmp("cbcoordchk-rbmodes", "rbmodes", inp, r.rbmodes, rbm, sc)
+        cmp("cbcoordchk-coords", "coords", inp, r.coords, co, max(1.0, np.abs(co).max()))
+        if abs(r.maxerr - er.max()) > 1e-9 * max(1.0, np.abs(co).max()):
+            ctx.disagree("cbcoordchk-maxerr", inp, float(r.maxerr), float(er.max()))
+        want_chk = "pass" if t[0] == "single" else t[0]
+        if r.refpoint_chk != want_chk:
+            ctx.disagree("cbcoordchk-refchk", inp, r.refpoint_chk, t[0])
     # K
     for c in c0_cases:
         tf = run_cbtf0(c)
@@ -2729,6 +2968,7 @@ def correspondence(ctx):
         "netdrm:tau-natural", "netdrm:g-other", "netdrm:single-grid", "netdrm:conv-string", "netdrm:axial-0", "netdrm:axial-1",
         "netdrm:axial-2",
         "rbmult:first", "rbmult:last", "rbmult:vector", "rbmult:full",
+        "coordchk:grid", "coordchk:3-2-1", "coordchk:no-modal-dof", "coordchk:bset-unsorted",
         "rbchk:layout-first", "rbchk:layout-last", "rbchk:layout-vec", "rbchk:layout-full", "rbchk:node", "rbchk:rot", "rbchk:null",
         "rbchk:modal", "rbchk:bad", "rbchk:flagged-nonrigid", "rbchk:node-found", "rbchk:err-bsetString", "rbchk:err-scale",
         "cbtf0:bfirst", "cbtf0:blast", "cbtf0:bmixed", "cbtf0:bnoq-permuted",
@@ -3537,6 +3777,8 @@ def _run_kind(inp):
         return oracle_rbmult(inp["seed"])
     if k == "rbchk":
         return oracle_rbchk(inp["case"])
+    if k == "coordchk":
+        return oracle_coordchk(inp)
     if k == "cbtf0":
         return oracle_cbtf0(inp)
     if k == "netdrm-reorder-probe":
@@ -3625,6 +3867,12 @@ def search(ctx, hints):
     for i in range(ctx.pick(60, 600)):
         fails += oracle_rbmult([ctx.seed, 55, i])
         ctx.count("oracle:rbmultchk")
+    rng = ctx.np_rng(15)
+    for c in coordchk_cases(rng, ctx.pick(40, 300)):
+        if build_case(c["spec"])["red"]["cond"] > 1e8:
+            continue
+        fails += oracle_coordchk(c)
+        ctx.count("oracle:cbcoordchk")
     rng = ctx.np_rng(14)
     for c in rbchk_cases(rng, ctx.pick(80, 600), bad_safe=True):
         fails += oracle_rbchk(c)
